@@ -170,7 +170,7 @@ def r1c_mt_precondition(rule, root=None):
     b = A.find_fn(OCT, "build_inner", self_ty="Octree", root=root)
     unwraps = [c for c in A.find(m["body"], "MethodCall") if c["method"] == "unwrap" and txt(c["recv"]).endswith(".cell.index")]
     t = txt(m["body"])
-    loop_runs = "whiletodo.len()<target_count" in t and "lettarget_count=8usize.pow(u32::from(settings.depth)).min((threads.thread_count()*10));" in t
+    loop_runs = "whiletodo.len()<target_count" in t and "lettarget_count=8usize.pow((settings.depthasu32)).min((threads.thread_count()*10));" in t
     ifs = [i for i in A.find(b["body"], "If") if "build_inner_mt" in txt(i["then"])]
     guard = txt(ifs[0]["cond"]) if ifs else ""
     if not unwraps:
@@ -217,7 +217,7 @@ def r5_pool_independence(rule, root=None):
     m = A.find_fn(OCT, "build_inner_mt", self_ty="Octree", root=root)
     t = txt(m["body"])
     ws = [w for w in A.find(m["body"], "While") if "todo.len()" in A.unparse(w["cond"])]
-    if len(ws) == 1 and A.norm_cond(str(txt(A.strip(ws[0]["cond"])))) in ("todo.len()<target_count", "target_count>todo.len()") and t.fmatch("lettarget_count=8usize.pow(u32::from(settings.depth)).min((threads.thread_count()*10));") is not None:
+    if len(ws) == 1 and A.norm_cond(str(txt(A.strip(ws[0]["cond"])))) in ("todo.len()<target_count", "target_count>todo.len()") and t.fmatch("lettarget_count=8usize.pow((settings.depthasu32)).min((threads.thread_count()*10));") is not None:
         rule.ok("the work queue is split only while it is shorter than min(8^depth, 10 x threads)", file=OCT, line=ws[0]["ln"])
     else:
         rule.bad("pool|split", "build_inner_mt must stop splitting as soon as the queue has min(8^depth, 10 x threads) cells (`while todo.len() < target_count`): one split more goes below the requested depth in one corner only when a pool is used", A.where(m))
